@@ -23,6 +23,12 @@ impl Compiler {
     }
 
     pub fn resolve_global_name<'a>(&'a self, name: &'a str) -> &'a str {
+        // a name the program (or an earlier unit of the session) defines itself denotes that
+        // definition, whatever was imported under the same name: it is not redirected to the
+        // imported symbol (reads in compile_identifier follow the same rule)
+        if self.globals.contains_key(name) {
+            return name;
+        }
         // Only translate to qualified name if it's a stdlib import (contains ::)
         // Custom module entries contain module path (like "mod_a") not qualified names
         self.symbol_origins
